@@ -1,8 +1,11 @@
 import Driver.Util
 import OFModel.RollLog
+import OFModel.RollBuf
 open Lean Driver OF.RollLog
 /-! Driver for C13 (`c13.run`) and C14 (`c14.run`): run an op sequence on the RollLog model, print per-op results,
-the directory listing and the head file state after every op. -/
+the directory listing and the head file state after every op.  `c13.buf`: run an op sequence on the unflushed writer
+(`OFModel/RollBuf.lean`), print per-op result, the byte length of every file as other handles see it, and the number of
+bytes still held by the file object. -/
 namespace Driver.C13
 
 def parseWho (j : Json) : R Who := do
@@ -63,8 +66,34 @@ def stateJson (x : Res × Sys) : Json :=
        ("dir", jarr ((dirEntries x.2.fs).map fun lf => jarr [toJson lf.ts, toJson lf.size])),
        ("head", hcJson x.2.hd.head), ("tmp", hcJson x.2.hd.tmp)]
 
+def parseBufOp (j : Json) : R OF.RollBuf.Op := do
+  match (← strF j "o") with
+  | "write" => return .write (← (← arrF j "recs").mapM parseRec) (← boolF j "flush")
+  | "flush" => return .flush
+  | "close" => return .close
+  | o => throw s!"bad op {o}"
+
+def bufResJson : OF.RollBuf.Res → Json
+  | .wrote n => obj [("r", "wrote"), ("n", toJson n)]
+  | .ok => obj [("r", "ok")]
+  | .err => obj [("r", "err"), ("e", "RuntimeError")]
+
+def bufStateJson (x : OF.RollBuf.Res × OF.RollBuf.Writer) : Json :=
+  obj [("res", bufResJson x.1),
+       ("files", jarr (x.2.files.map fun f => toJson (OF.RollBuf.piecesLen f))),
+       ("pending", toJson (OF.RollBuf.piecesLen x.2.pending)),
+       ("open", Json.bool x.2.cur.isSome)]
+
 def handle (op : String) (j : Json) : R Json := do
   match op with
+  | "c13.buf" =>
+    let calls ← match (natF j "calls").toOption.getD 1 with
+      | 1 => pure OF.RollBuf.Calls.one
+      | 2 => pure OF.RollBuf.Calls.two
+      | n => throw s!"calls must be 1 or 2, got {n}"
+    let ops ← (← arrF j "ops").mapM parseBufOp
+    let w0 := OF.RollBuf.init (← natF j "cap") (← natF j "file_size") calls
+    return obj [("trace", jarr ((OF.RollBuf.runTrace w0 ops).map bufStateJson))]
   | "c14.steps" => return obj [("steps", jstrs OF.RollLog.headStepNames)]
   | "c13.run" | "c14.run" =>
     let pol := match (strF j "policy").toOption with
